@@ -95,7 +95,7 @@ Proof. vm_compute. split; reflexivity. Qed.
 (* ------------------------------------------------------------------------------------------------------
    Added in build session 4 (statements re-stated from the proof files by harness tooling; each is closed by
    exact). *)
-From SplipyModel Require Import Model.EvalForms Proofs.EvalFormsProofs.
+From SplipyModel Require Import Model.EvalForms Proofs.EvalFormsProofs Transfer.ParamObj Transfer.ParamOps Transfer.ParamOps2.
 Open Scope R_scope.
 Theorem C02_grid_spec :
   forall (F : Type) (H : Num F) (tol : F) (o : obj F) (lists g : list (list F)),
@@ -155,4 +155,17 @@ Theorem C02_grid_value_error_iff :
           exists g : list (list R), obj_eval_grid tol o lists = Ok g).
 Proof. exact @grid_value_error_iff. Qed.
 Print Assumptions C02_grid_value_error_iff.
+
+Theorem C02_executed_is_proved_grid :
+  forall (tol : Q) (o : obj Q) (lists : list (list Q)),
+         resmap (map (map Q2R)) (obj_eval_grid tol o lists) = obj_eval_grid (Q2R tol) (objQ2R o) (map (map Q2R) lists).
+Proof. exact @obj_eval_grid_transfer. Qed.
+Print Assumptions C02_executed_is_proved_grid.
+
+Theorem C02_executed_is_proved_pointwise :
+  forall (tol : Q) (o : obj Q) (lists : list (list Q)),
+         resmap (map (map Q2R)) (obj_eval_pointwise tol o lists) =
+         obj_eval_pointwise (Q2R tol) (objQ2R o) (map (map Q2R) lists).
+Proof. exact @obj_eval_pointwise_transfer. Qed.
+Print Assumptions C02_executed_is_proved_pointwise.
 
